@@ -23,6 +23,7 @@ type Engine struct {
 	loadErrs  []string
 	overlay   map[string][]byte
 	known     []*KnownFinding
+	ginfo     map[*ssa.Global]globalInfo
 }
 
 func newEngine(repo string) *Engine {
@@ -67,16 +68,24 @@ func (e *Engine) load(patterns []string) error {
 		}
 	})
 	// contract files resident in the loaded repo packages
-	for _, p := range pkgs {
+	var cerr error
+	var paths []string
+	for path := range e.pkgs {
+		paths = append(paths, path)
+	}
+	sort.Strings(paths)
+	for _, path := range paths {
+		p := e.pkgs[path]
+		if !strings.HasPrefix(path, repoModule) {
+			continue
+		}
 		for _, f := range p.GoFiles {
-			if filepath.Base(f) == "verif_contracts.go" {
-				if err := e.contracts.loadContractFile(f, p.PkgPath); err != nil {
-					return err
-				}
+			if filepath.Base(f) == "verif_contracts.go" && cerr == nil {
+				cerr = e.contracts.loadContractFile(f, p.PkgPath)
 			}
 		}
 	}
-	return nil
+	return cerr
 }
 
 // cleanGoEnv is the environment for the go list sub-process: /repo needs the
@@ -296,6 +305,8 @@ func (e *Engine) frameObligations(vc *VC, fx *fexec, sc *SpecCtx, c *Contract, e
 	allowed := map[string][]Term{}
 	for _, a := range c.Assigns {
 		switch a.X.K {
+		case "ghost":
+			allowed["GH_"+smtQuote(a.X.Op)] = append(allowed["GH_"+smtQuote(a.X.Op)], intLit(1))
 		case "sel":
 			base := sc.eval(a.X.Args[0])
 			pt := vc.resolve(base.Ty).Underlying().(*types.Pointer)
